@@ -51,6 +51,8 @@ def recheck(name):
     finally:
         sh("git -C /repo checkout -- .")
         sh("python3 tools/gen_constants.py; python3 tools/gen_locks.py", cwd=VERIF)
+        rc2, out2 = sh("./check %s --tier quick" % pid, cwd=VERIF, timeout=3600)
+        res["clean_rerun_rc"] = rc2
     with open(os.path.join(dst, "meta.json"), "w") as f:
         json.dump(meta, f, indent=1)
     print(name, json.dumps({k: res.get(k) for k in ("detected", "check_rc", "check_lines")}))
@@ -63,9 +65,10 @@ def main():
         for n in sys.argv[2:]:
             rc |= recheck(n)
         return rc
-    wt, pid = sys.argv[1], sys.argv[2]
-    name = sys.argv[3] if len(sys.argv) > 3 else pid
-    src = os.path.join(wt, "out", pid)
+    wt, sub = sys.argv[1], sys.argv[2]
+    pid = sub.split("_")[0]          # out/<ID> or out/<ID>_<n>
+    name = sys.argv[3] if len(sys.argv) > 3 else sub
+    src = os.path.join(wt, "out", sub)
     patch = os.path.join(src, "patch.diff")
     res = {"property": pid, "seed_dir": src}
     sh("git checkout -- rtrlib third-party", cwd=wt)
@@ -121,6 +124,9 @@ def main():
             sh("git -C /repo checkout -- .")
             # the translators wrote model parts generated from the seeded source: regenerate from the clean tree
             sh("python3 tools/gen_constants.py; python3 tools/gen_locks.py", cwd=VERIF)
+            # the evidence file was rewritten by the run against the seeded tree: rewrite it from the clean tree
+            rc2, out2 = sh("./check %s --tier quick" % pid, cwd=VERIF, timeout=3600)
+            res["clean_rerun_rc"] = rc2
     dst = os.path.join(VERIF, "seeded", name)
     os.makedirs(dst, exist_ok=True)
     for f in os.listdir(src):
